@@ -185,7 +185,16 @@ def explore(ctx):
         n = rng.randint(1, 9)
         if i % 6 == 2:
             n = max(n, 5)            # the renamed cases need a few glyphs
-        jobs.append(gen_widths(rng, n))
+        w = gen_widths(rng, n)
+        # always (not left to the generator's dice): all advances equal -- non-zero and zero -- and a strictly descending run,
+        # on fonts the other deterministic variants do not touch
+        # (even indices are the TrueType ones: only there is the header count of the RETURNED font ufo2ft's own -- the CFF route
+        # reloads the font in the post-processor)
+        if i % 12 in (1, 4):
+            w = [[500] * max(n, 2), [0] * max(n, 2)][(i // 12) % 2]
+        elif i % 12 in (7, 10):
+            w = [[500] * max(n, 3), [1000 - 10 * k for k in range(max(n, 3))]][(i // 12) % 2]
+        jobs.append(w)
     if not ctx.quick():
         seqs = [list(s) for L in range(1, 7) for s in itertools.product([0, 500, 600], repeat=L)]
         rng.shuffle(seqs)
